@@ -687,7 +687,8 @@ func (o *oracle) probe(s *sim, sp *runSpec, answered, ad bool) string {
 	signedByLive := func(signers []kref) bool {
 		for _, sg := range signers {
 			for _, t := range live {
-				if t.id == sg.id && t.tag == sg.tag && t.owner == 0 && sg.owner == 0 {
+				// a trust anchor is a non-revoked KSK
+				if t.id == sg.id && t.tag == sg.tag && t.owner == 0 && sg.owner == 0 && t.sep() && !t.revoked() {
 					return true
 				}
 			}
